@@ -43,6 +43,10 @@ GEOMS = {
         dict(ver=1, spc=12, W=3, cut=0, skew=5),
         # a window deep inside the BAT
         dict(ver=2, spc=8, W=3, cut=3, skew=0, at=1022),
+        # BATs that end exactly on a sector boundary (112 + 128k entries) with the first cluster stored directly behind them
+        dict(ver=2, spc=1, W=3, cut=0, skew=0, at=109, tight=True),
+        dict(ver=1, spc=4, W=3, cut=1, skew=0, at=237, tight=True),
+        dict(ver=1, spc=1, W=3, cut=0, skew=0, at=365, tight=True),
         # windows beyond 16384 / 65536 BAT entries (page and chunk sizes of table readers)
         dict(ver=2, spc=8, W=3, cut=0, skew=0, at=16383),
         dict(ver=1, spc=3, W=3, cut=1, skew=0, at=65535),
@@ -127,6 +131,9 @@ def _case_hds(case, ctx):
     g = case["geom"]
     at = g.get("at", 0)
     first = (64 + 4 * (at + len(case["states"]))) // (g["spc"] * 512) + 1 if at else 0
+    if g.get("tight"):
+        cl_ = g["spc"] * 512
+        first = (64 + 4 * (at + len(case["states"])) + cl_ - 1) // cl_ - 1  # slot 1 is the first whole cluster behind the BAT
     states = [HOLE] * at + list(case["states"])
     slots = [None] * at + [p + first + g.get("slot_off", 0) if p is not None else None for p in case["slots"]]
     spc = g["spc"]
